@@ -11,7 +11,9 @@ Clauses tested at every iteration index k >= 2 of every run:
   argmax             characteristic(chosen interval) >= max characteristic - 1e-9 relative
   new-point-formula  x_k = (x_l+x_r)/2 - sign(z_r-z_l) (|z_r-z_l|/M)^N/(2r)   (midpoint on boundary intervals)
   M-and-zstar        the solver's own M and Z agree with the recomputed M*, z* (1e-9) at the end of the run
-  no-internal-error  the run neither raises nor prints the internal-exception marker
+  no-internal-error  the run neither raises nor prints the internal-exception marker (a float collapse - the new point
+                     rounding onto an end of an interval narrower than 1e-12 - legitimately ends the run: counted in
+                     stats['float_collapse_stops'], all clauses still tested on the history reached)
 """
 import os
 import sys
@@ -119,14 +121,15 @@ def check_case(case):
     err = None
     try:
         for b in case.get("batches", []):
-            run.iterate(b)
+            if not run.iterate(b):
+                break
         if case.get("solve", True):
             run.solve()
     except BaseException as e:                # noqa - an escaping exception is itself a finding
         err = repr(e)
-    if err or run.printed_exception or run.runaway:
-        vs.append(oc.violation(PROP, case, "no-internal-error", {"raised": err, "printed_marker": run.printed_exception,
-                                                                 "runaway": run.runaway}))
+    if run.trouble(err):
+        vs.append(oc.violation(PROP, case, "no-internal-error", run.trouble(err)))
+    info["float_collapse"] = bool(run.collapsed)
     hist, nitems, nlog = run.history()
     info["trials"] = len(hist)
     if nitems != nlog:
@@ -156,6 +159,8 @@ def check_case(case):
 
 
 def gen(r):
+    if r.random() < 0.03:
+        return dict(oc.collapse_prone_case(r), solve=False)
     u = r.random()
     spec = None
     n = r.choice((1, 1, 2, 2, 3, 4, 5))
@@ -175,7 +180,7 @@ def gen(r):
 
 
 def run(tier, r):
-    ncases = 260 if tier == "quick" else 4200
+    ncases = 1000 if tier == "quick" else 15000
     vs, stats, samples, keys = [], {}, [], set()
     nontrivial = 0
     explored = 0
@@ -186,6 +191,7 @@ def run(tier, r):
         vs += v
         oc.bump(stats, "dim%d" % case["n"])
         oc.bump(stats, "kind_" + case["spec"]["kind"])
+        oc.bump(stats, "float_collapse_stops", 1 if info.get("float_collapse") else 0)
         for k in ("iterations", "M_grew", "best_changed", "boundary_chosen"):
             oc.bump(stats, k, info.get(k, 0))
         key = oc.case_key(case)
